@@ -34,6 +34,9 @@ func runC19(r *runner, ev *evidence, pool *gosym.Pool) int {
 	if r.tier == "thorough" {
 		maxJ, ks = 4, []int64{-1, 0, 1, 2, 3}
 	}
+	if r.spec.SchedMaxJ > 0 && maxJ > r.spec.SchedMaxJ {
+		maxJ = r.spec.SchedMaxJ
+	}
 	var states, queries, paths int64
 	var solverS float64
 	var samples []any
@@ -104,7 +107,7 @@ func runC19(r *runner, ev *evidence, pool *gosym.Pool) int {
 	cov["configurations"] = msgs
 	cov["exhaustive"] = false
 	cov["explanation"] = "states = unrolled (step, thread) positions of the SMT transition systems; transitions = property queries discharged (P1 deadlock, P2 success implies all written once with own path/content, P3 no lost error, P4 no write in flight at return, P5 no double write / negative WaitGroup / blocking error send, P6 reachability witnesses, U unwinding assertion), each over ALL schedules, select choices and failing subsets"
-	fmt.Printf("OK property=C19 tier=%s configurations=%d queries=%d wall=%.0fs\n", r.tier, len(msgs), queries, time.Since(r.start).Seconds())
+	fmt.Printf("OK property=%s tier=%s configurations=%d queries=%d wall=%.0fs\n", r.spec.ID, r.tier, len(msgs), queries, time.Since(r.start).Seconds())
 	return 0
 }
 
